@@ -66,9 +66,10 @@ VARIABLES
     exc,        \* per thread: an exception is propagating out of the current forwarder call
     completed,  \* set of <<t, i>>: the forwarder call for item i returned normally
     raisedAt,   \* set of <<t, i>>: the forwarder call for item i raised to the reporting thread
+    reads,      \* per thread: the values its `shouldStop` reads have returned, in order
     hist        \* observation (export / trace validation)
 
-vars == <<work, faults, pc, idx, buf, sem, tlog, ncalls, exc, completed, raisedAt, hist>>
+vars == <<work, faults, pc, idx, buf, sem, tlog, ncalls, exc, completed, raisedAt, reads, hist>>
 
 Threads == DOMAIN work
 StartT(t, i) == IF work[t][i].st = 0 THEN Id(t, i) + 1 ELSE work[t][i].st
@@ -107,6 +108,7 @@ InitWith(w, fs) ==
     /\ ncalls = [t \in DOMAIN w |-> 0]
     /\ exc = [t \in DOMAIN w |-> FALSE]
     /\ completed = {} /\ raisedAt = {}
+    /\ reads = [t \in DOMAIN w |-> <<>>]
     /\ hist = <<>>
 
 \* the reporting thread calls time(start) [tags(gt)] startTest(test) [tags(xt)] time(end) on its forwarder and
@@ -128,14 +130,14 @@ Local(t) ==
                     ELSE IF it.kind = "startTestRun" THEN [buf EXCEPT ![t].gt = NoTags]
                     ELSE buf
     /\ pc' = [pc EXCEPT ![t] = "acq"]
-    /\ UNCHANGED <<work, faults, sem, tlog, ncalls, exc, completed, raisedAt>>
+    /\ UNCHANGED <<work, faults, sem, tlog, ncalls, exc, completed, raisedAt, reads>>
     /\ Log(t, "local", NoEntry, None)
 
 Acquire(t) ==
     /\ pc[t] = "acq" /\ sem = Free
     /\ sem' = t
     /\ pc' = [pc EXCEPT ![t] = IF Item(t).kind = "test" THEN "t1" ELSE "rcall"]
-    /\ UNCHANGED <<work, faults, idx, buf, tlog, ncalls, exc, completed, raisedAt>>
+    /\ UNCHANGED <<work, faults, idx, buf, tlog, ncalls, exc, completed, raisedAt, reads>>
     /\ Log(t, "acquire", NoEntry, None)
 
 AfterTime2(b) == IF AnyTags(b.gt) THEN "tg" ELSE IF AnyTags(b.xt) THEN "tt" ELSE "out"
@@ -173,8 +175,12 @@ Call(t) ==
           /\ pc' = [pc EXCEPT ![t] = np]
           \* `self._test_tags = set(), set()` sits between the tags calls and the outcome
           /\ buf' = IF np = "out" THEN [buf EXCEPT ![t].xt = NoTags] ELSE buf
-          /\ UNCHANGED <<work, faults, idx, sem, completed, raisedAt>>
+          /\ UNCHANGED <<work, faults, idx, sem, completed, raisedAt, reads>>
           /\ Log(t, "call", e, None)
+
+\* the target's shouldStop flag as the call at position p of its log finds it: a stop() has got through before
+StopBefore(p) == \E q \in 1..(p - 1) : tlog[q].call = "stop" /\ ~tlog[q].f
+LastCallOf(t) == CHOOSE p \in DOMAIN tlog : tlog[p].thr = t /\ \A q \in DOMAIN tlog : tlog[q].thr = t => q <= p
 
 Release(t) ==
     /\ pc[t] = "rel"
@@ -184,10 +190,13 @@ Release(t) ==
        THEN /\ raisedAt' = raisedAt \cup {<<t, idx[t]>>}
             /\ buf' = IF Variant = "asRequired" /\ Item(t).kind = "test"
                       THEN [buf EXCEPT ![t].start = 0, ![t].xt = NoTags] ELSE buf
-            /\ UNCHANGED completed
+            /\ UNCHANGED <<completed, reads>>
        ELSE /\ completed' = completed \cup {<<t, idx[t]>>}
             /\ buf' = IF Item(t).kind = "test" THEN [buf EXCEPT ![t].start = 0] ELSE buf
             /\ UNCHANGED raisedAt
+            \* _get_shouldStop returns what the target's flag was when this thread, holding the semaphore, read it
+            /\ reads' = IF Item(t).kind = "shouldStop"
+                        THEN [reads EXCEPT ![t] = Append(@, StopBefore(LastCallOf(t)))] ELSE reads
     /\ exc' = [exc EXCEPT ![t] = FALSE]
     /\ UNCHANGED <<work, faults, idx, tlog, ncalls>>
     /\ Log(t, "release", NoEntry, IF exc[t] THEN "raised" ELSE "ok")
@@ -281,6 +290,16 @@ OnceInOrder ==
 Released ==
     /\ \A t \in Threads : pc[t] = "idle" => sem # t
     /\ (\A t \in Threads : pc[t] \in {"idle", "acq"}) => sem = Free
+
+\* a shouldStop read never returns without having held the semaphore: the j-th value a thread was given is the
+\* target's flag as its j-th (non-raising) shouldStop call on the target found it, and that call was made under the
+\* semaphore - so once a stop() has been forwarded and its block released, every later read returns TRUE
+ShouldStopReads ==
+    \A t \in Threads :
+        LET ent == SelectSeq([j \in DOMAIN tlog |-> j],
+                             LAMBDA j : tlog[j].thr = t /\ tlog[j].call = "shouldStop" /\ ~tlog[j].f)
+        IN /\ Len(reads[t]) <= Len(ent)
+           /\ \A j \in DOMAIN reads[t] : reads[t][j] = StopBefore(ent[j]) /\ tlog[ent[j]].h = t
 
 \* the exception raised by the target reaches the reporting thread
 FaultsSurface ==
